@@ -15,7 +15,7 @@ import time
 from vlib import common
 
 NPKG = 8
-VERSION = 3   # bump when the assembler changes: cached stage-2 results of older versions are redone
+VERSION = 4   # bump when the assembler changes: cached stage-2 results of older versions are redone
 MAX_ROUNDS = 40
 
 
@@ -200,8 +200,8 @@ def stage2(info):
         ok, log = s.build()
         r = {"tag": info.get("tag"), "version": VERSION, "distinct_texts": len(texts), "stage1_panics": len(words), "build_ok": ok,
              "build_log": log if not ok else "", "packages": s.npkg,
-             "compile_errors": [{"type": texts[k][0], "ops": texts[k][2][:5], "text": texts[k][1][:2000], "error": msg}
-                                for k, msg in sorted(s.bad.items())][:50],
+             "compile_errors": [{"type": texts[k][0], "ops": texts[k][2][:5], "text": texts[k][1][:1500], "error": msg}
+                                for k, msg in sorted(s.bad.items())][:3000],
              "n_compile_errors": len(s.bad)}
         if ok:
             rc, err = s.run()
